@@ -22,6 +22,8 @@ class C10(PropBase):
         rule = rng.choice(['comma', 'alias', 'dstar', 'filter', 'literal'])
         if rule == 'comma':
             i = rng.randrange(len(segs))
+            if bsegs[i] != bsegs[i].strip() or not bsegs[i]:
+                return None      # the alternatives of a ',' list are stripped
             # prefer a value that exists at this level in the universe, in particular one that extends / is extended by this value
             others = sorted(set(e.split('/')[i] for e in pool if len(e.split('/')) > i and e.split('/')[i] != bsegs[i]))
             # alternatives of a ',' list are stripped by the syntax: only values that are their own stripped form, without search symbols
@@ -67,6 +69,11 @@ class C10(PropBase):
             val = bsegs[i]
             if val in v.alias:
                 return None      # an alias value is itself a search (covered by the alias rule)
+            from props.c02 import QUERY_UNSAFE
+            if not val or set(val) & (QUERY_UNSAFE | set(',*>')) or any(ord(ch) > 127 for ch in val):
+                # the filter rule is about url-safe values (as the query round trip of C02): '~' ',' '+' '%' ... have a meaning of their
+                # own in a query value.  Observed outside that fragment: unfold_search decodes a query value twice (DESIGN.md, O1)
+                return None
             return rule, '/'.join(segs) + '?' + keys[i] + '=' + val, ['/'.join(segs)], {'key': keys[i], 'val': val}
         stars = [i for i, g in enumerate(segs) if g == '*']
         if not stars:
